@@ -204,8 +204,9 @@ def ob_tx_write(ex, nchunks=2):
     t0 = time.time()
     q0 = ex.queries
     st = State()
-    sw = SystemWorld(ex, st, U=1, HU=1, N=2)
-    tx, st = E.mk_tx(ex, sw, st, pending=False)     # a fresh transaction exactly as Transaction::new builds it
+    sw = SystemWorld(ex, st, U=1, HU=1, N=2, intents="empty")
+    (tx, st), = E.mk_tx(ex, sw, st, pending=False)  # a fresh transaction exactly as Transaction::new builds it
+    st.meta.pop("hashed-content", None)
     I_HASHER, I_SIZE, I_WRITER = E.tx_field(ex, "hasher"), E.tx_field(ex, "size"), E.tx_field(ex, "writer")
     tx.fields[I_SIZE] = VInt(0, "u64")
     txref = VRef(st.alloc(tx))
@@ -229,18 +230,50 @@ def ob_tx_write(ex, nchunks=2):
                 elif f.status == "cut":
                     pass  # beyond the unrolling bound: stated as outside the claim
         states = nxt
-    name = f"Transaction::write x{nchunks}: hasher stream == staging stream == content; size == total length"
+    name = f"Transaction::write x{nchunks} then finish: hashed stream == staged stream == content; size == total length"
     for f in states:
         if f.status == "unsupported":
             return Obligation(name, ["C18"], "inconclusive", time.time() - t0, f.note, None, ex.queries - q0, len(states))
+    # ... then the real commit: what counts is the stream the hash was FINALISED over and the bytes that reached the
+    # staging file by the time it is renamed (buffering inside write - of file bytes or of hasher input - is legitimate)
+    commit = find_fn(ex, "::commit", "transaction::")
+    done, seen = [], set()
+    for f in states:
+        if f.status == "panic":
+            done.append((f, None))
+            continue
+        txv = f.load(txref)
+        size_t = txv.fields[I_SIZE].t
+        # C18 / environment preconditions of a commit: a hash determines its content, hence its length
+        for i in range(sw.iw.U):
+            f.pc.append(z3.Implies(z3.And(sw.iw.pk[i], sw.iw.hk[i] == sw.op_hash), sw.iw.sk[i] == size_t))
+        f.pc.append(sw.iw.total + size_t <= (1 << 64) - 1)
+        f.meta.pop("finalized-over", None)
+        ex.start(f, commit, [txv])
+        for g in ex.run(f):
+            if g.status == "unsupported":
+                return Obligation(name, ["C18"], "inconclusive", time.time() - t0, g.note, None, ex.queries - q0, len(states))
+            if g.status == "panic":
+                done.append((g, None))
+            elif g.status == "returned" and isinstance(g.retval, VEnum) and g.retval.concrete() == 0:
+                sig = (str(g.meta.get("finalized-over")), str([e.get("data") for e in g.trace if e["kind"] == "io" and e["op"] == "write"
+                                                                and e["path"][0] == "staging"]), str(g.meta.get("chunk_lens")))
+                if sig not in seen:
+                    seen.add(sig)
+                    done.append((g, size_t))
+    states = [g for g, _ in done]
+    sizes = {id(g): sz for g, sz in done}
 
     def norm(chunks):
         out = []
         for d in chunks:
-            if isinstance(d, tuple) and len(d) == 2 and d[0] in ("bytes", "chunk"):
-                d = d[1]
             while isinstance(d, tuple) and len(d) == 2 and d[0] in ("bytes", "chunk"):
                 d = d[1]
+            if isinstance(d, tuple) and len(d) == 2 and d[0] == "record" and isinstance(d[1], tuple):
+                out += norm(list(d[1]))      # a byte vector assembled from several pieces (e.g. a batching buffer)
+                continue
+            if d == 0 or d == ("bytes", 0):
+                continue                     # an empty byte vector
             out.append(d)
         return out
 
@@ -251,13 +284,13 @@ def ob_tx_write(ex, nchunks=2):
             return Obligation(name, ["C18"], "violated", time.time() - t0, "write panics: " + f.note,
                               {"chunk_lens": [m.eval(x, model_completion=True).as_long() for x in f.meta.get("chunk_lens", [])]} if m else None,
                               ex.queries - q0, len(states))
-        t = f.load(txref)
-        hashed = norm(list(t.fields[I_HASHER].data))
-        ios = [e for e in f.trace if e["kind"] == "io" and e["op"] == "write" and e["path"][0] == "staging"]
+        hashed = norm(list(f.meta.get("finalized-over") or ()))
+        ren = [i for i, e in enumerate(f.trace) if e["kind"] == "io" and e["op"] == "rename" and e.get("dst", ("",))[0] == "cas"]
+        upto = ren[0] if ren else len(f.trace)
+        ios = [e for e in f.trace[:upto] if e["kind"] == "io" and e["op"] == "write" and e["path"][0] == "staging"]
         written = []
         for e in ios:
             written += norm(e["data"])
-        written += norm([x.data for x in t.fields[I_WRITER].fields[1].elems])
         lens = f.meta.get("chunk_lens", [])
 
         def total(seq):
@@ -272,10 +305,13 @@ def ob_tx_write(ex, nchunks=2):
         want = z3.Sum(lens) if lens else z3.IntVal(0)
         posts = {}
         if th is None or tw is None:
+            import os
+            if os.environ.get("VERIF_DEBUG"):
+                print("DEBUG hashed", hashed, "written", written)
             posts["streams are made of slices of the written chunks"] = False
         else:
-            posts["C18 hasher saw exactly as many bytes as were written"] = th == want
-            posts["C18 staging writer got exactly as many bytes as were written"] = tw == want
+            posts["C18 the hash was finalised over exactly as many bytes as were written"] = th == want
+            posts["C18 the staging file got exactly as many bytes as were written before it was renamed into cas/"] = tw == want
             # contiguity per chunk: slices of chunk i appear in order and cover [0, len_i)
             for seqname, seq in (("hasher", hashed), ("writer", written)):
                 pos = {}
@@ -294,7 +330,7 @@ def ob_tx_write(ex, nchunks=2):
                             okc.append(d[3] == 0)
                         last_chunk = max(last_chunk, idx)
                 posts[f"C18 {seqname} stream is the chunks in order without gaps"] = z3.And(okc) if okc else z3.BoolVal(True)
-        posts["C18 recorded size == total length"] = t.fields[I_SIZE].t == want
+        posts["C18 recorded size == total length"] = sizes[id(f)] == want
         for lab, post in posts.items():
             n += 1
             if isinstance(post, bool):
